@@ -479,7 +479,9 @@ def judge(col, tally, dec, s, meta, kind, posc, is_base, base_ok=True):
     col.probe(dec)
     col.probe('ref-valid' if refs else 'ref-invalid')
     cls = '%s/%s/%s' % (meta['cls'], kind, dec)
-    ident = (dec, meta['cls'], kind, posc) if (base_ok or is_base) else None
+    if is_base:
+        base_ok = st == 'ok'
+    ident = (dec, meta['cls'], kind, posc) if base_ok else None      # non-trivial only where the base string was accepted
     tally.add('%s/%s' % (cls, posc) if posc else cls, ident, {'decoder': dec, 's': s, 'kind': kind, 'reference_valid': bool(refs),
                                                               'library': st})
     if st == 'refused':
